@@ -384,3 +384,18 @@ package panos
 //vc:  ensures[C03] @nameQueryEscaped result == "[@name='" + url.QueryEscape(n) + "']"
 //vc:func textAttr
 //vc:  ensures[C03] @textQueryEscaped result == "[text()='" + url.QueryEscape(n) + "']"
+
+// rulesPair.Equal: rules that count as equal have the same rule type and the
+// same action (an absent <rule-type> differs from a present one).
+//vc:func (*rulesPair).Equal
+//vc:  hypothesis[C03] 0 <= ai && ai < len(ab.a.rules) && 0 <= bi && bi < len(ab.b.rules) && ab.a.rules[ai] != nil && ab.b.rules[bi] != nil
+//vc:  ensures[C03] @equalRulesHaveSameType result ==> ab.a.rules[ai].RuleType == ab.b.rules[bi].RuleType
+//vc:  ensures[C03] @equalRulesHaveSameAction result ==> ab.a.rules[ai].Action == ab.b.rules[bi].Action
+//vc:  ensures[C03] @equalRulesHaveSameLogging result ==> ab.a.rules[ai].LogStart == ab.b.rules[bi].LogStart && ab.a.rules[ai].LogEnd == ab.b.rules[bi].LogEnd && ab.a.rules[ai].LogSetting == ab.b.rules[bi].LogSetting
+// (the comparison helpers read only)
+//vc:func stringsEq
+//vc:  modifies nothing
+//vc:func (*rulesPair).objectsTypeEq
+//vc:  modifies nothing
+//vc:func (*rulesPair).servicesEq
+//vc:  modifies nothing
